@@ -126,6 +126,8 @@ class Session:
             kw.update(user=make_user(g, c), version=g.SnmpVersion.v3)
             if c.get("engine_id"):
                 kw["engine_id"] = bytes.fromhex(c["engine_id"])
+            elif c.get("engine_id_empty"):
+                kw["engine_id"] = b""             # "not known" said with an empty value instead of None
         self.kw = kw
         self.sess = None
         self.create_error = None
@@ -139,7 +141,17 @@ class Session:
         return self.loop.run_until_complete(coro)
 
     def op(self, name, args, cap=200):
-        """-> dict(kind RET|EXC|ITER, value/items/ending)"""
+        """-> dict(kind RET|EXC|ITER, value/items/ending); a call that does not come back is interrupted: exc = HANG"""
+        limit = self.sc.get("watchdog") or max(8.0, 30 * self.sc.get("timeout", 0.3))
+        try:
+            with apilib.watchdog(limit):
+                return self._op(name, args, cap)
+        except apilib.Hang:
+            if self.loop is not None:          # the interrupted loop is not reusable
+                self.loop = asyncio.new_event_loop()
+            return {"kind": "EXC", "exc": "HANG"}
+
+    def _op(self, name, args, cap=200):
         s = self.sess
         if s is None:
             return {"kind": "EXC", "exc": self.create_error}
